@@ -31,7 +31,7 @@ PARAMS = {
         "flory_schulz": [(0.3,), (0.1,), (0.05,)],
         "schulz_zimm": [(150.0, 120.0), (600.0, 450.0), (90.0, 60.0), (1500.0, 1000.0), (200.0, 100.0)],
         "gauss": [(100.0, 20.0), (1500.0, 50.0)],
-        "uniform": [(12, 72), (500, 600)],
+        "uniform": [(12, 72), (500, 600), (12.5, 72.5)],
         "log_normal": [(50.0, 1.1), (300.0, 1.5)],
         "poisson": [(6.5,), (65.0,)],
     },
@@ -39,7 +39,7 @@ PARAMS = {
         "flory_schulz": [(0.5,), (0.3,), (0.1,), (0.05,), (0.02,), (0.011,)],
         "schulz_zimm": [(150.0, 120.0), (600.0, 450.0), (1500.0, 1000.0), (5000.0, 4500.0), (90.0, 60.0), (200.0, 100.0), (2000.0, 1000.0)],
         "gauss": [(100.0, 20.0), (1500.0, 50.0), (5000.0, 150.0), (20.0, 60.0), (40.0, 0.5)],
-        "uniform": [(12, 72), (500, 600), (0, 10), (1000, 1001)],
+        "uniform": [(12, 72), (500, 600), (0, 10), (1000, 1001), (12.5, 72.5), (99.9, 200.1)],
         "log_normal": [(50.0, 1.1), (300.0, 1.5), (5000.0, 1.05), (20.0, 3.0)],
         "poisson": [(1.5,), (6.5,), (65.0,), (900.0,)],
     },
@@ -298,7 +298,9 @@ def eval_case(kind, data):
         grid = sorted(set(round(float(g), 6) for g in grid))
         if fam in ("flory_schulz", "schulz_zimm", "poisson"):
             # discrete laws: ends that are not integers (the interval holds the point masses between the ends), also far out
-            grid = sorted(set(grid + [g + 0.5 for g in grid] + [g + 0.044 for g in grid[-3:]]))
+            import math as _m2
+
+            grid = sorted(set(grid + [g + 0.5 for g in grid] + [g + 0.044 for g in grid[-3:]] + [float(_m2.floor(g)) for g in grid if g >= 1] + [14.0, 28.0]))
         if fam in ("gauss", "uniform", "log_normal"):
             # continuous laws: also ends with different fractional parts inside one integer bin and in neighbouring bins
             import math as _m
